@@ -29,9 +29,10 @@ class TuneErrRW(gs.RWKernel):
     chain whose y lies outside the support (the engine only warns about such codes; every chain keeps the state its
     own kernel returned)."""
     error_book = {0: "no errors", 1: "outside the support", 90: "nan acceptance prob"}
+    err_key = "y"
 
     def _code(self, model_state):
-        y = self.model.extract_position(["y"], model_state)["y"]
+        y = self.model.extract_position([self.err_key], model_state)[self.err_key]
         return jnp.where(jnp.all(y > 0), 0, 1).astype(jnp.int32)
 
     def tune(self, prng_key, kernel_state, model_state, epoch, history=None):
